@@ -88,7 +88,7 @@ package generator
 //@ pred FieldSettingsOK(m *generatedMethod) bool = !(m.Explicit && len(m.RawFieldSettings) > 0) || m.Target.Struct || (m.Target.Pointer && m.Parameters.Target.PointerInner.Struct)
 //@ func validateMethods(lookup)
 //@   props C09 C03 C05
-//@   loop@C05 3 invariant forall j int :: 0 <= j && j < idx ==> FieldSettingsOK(lookup.Exact[signature][j].Item)
+//@   loop@C05,C17,C03 3 invariant forall j int :: 0 <= j && j < idx ==> FieldSettingsOK(lookup.Exact[signature][j].Item)
 //@   loop@C05,C03 2 invariant forall i int, j int :: 0 <= i && i < idx && 0 <= j && j < len(lookup.Exact[signatures[i]]) ==> FieldSettingsOK(lookup.Exact[signatures[i]][j].Item)
 //@   maprange 1 unordered-result signatures
 // the collected keys are pairwise distinct (map keys); the comparator must decide every such pair
@@ -185,14 +185,17 @@ package generator
 //@ func generator.shouldCreateSubMethod(g; ctx, source, target)
 //@   props C06 C12 C08
 // whether the pair counts as an enum pair is decided with the settings of the method that is being generated
-//@   at@C12 call source.Enum#1 assert arg0 != nil && arg0.Enabled == ctx.Conf.Enum.Enabled && arg0.Unknown == ctx.Conf.Enum.Unknown && same(arg0.Excludes, ctx.Conf.Enum.Excludes)
-//@   at@C12 call target.Enum#1 assert arg0 != nil && arg0.Enabled == ctx.Conf.Enum.Enabled && arg0.Unknown == ctx.Conf.Enum.Unknown && same(arg0.Excludes, ctx.Conf.Enum.Excludes)
+//@   at@C12,C18,C08 call source.Enum#1 assert arg0 != nil && arg0.Enabled == ctx.Conf.Enum.Enabled && arg0.Unknown == ctx.Conf.Enum.Unknown && same(arg0.Excludes, ctx.Conf.Enum.Excludes)
+//@   at@C12,C18,C08 call target.Enum#1 assert arg0 != nil && arg0.Enabled == ctx.Conf.Enum.Enabled && arg0.Unknown == ctx.Conf.Enum.Unknown && same(arg0.Excludes, ctx.Conf.Enum.Excludes)
 //@   ensures@C13 old(ctx.HasSeen(source)) ==> result
 // C05/C12: field settings and flags of a method apply to its own target struct only -- a nested position whose source or
 // target is a named non-basic type is converted in a method of its own (with the converter's settings), unless the
 // current method is the pointer/value variant of that very struct pair or the pair is passed through (skipCopySameType)
-//@   ensures@C05,C12 !old(ctx.HasSeen(source)) && !PtrVariantOfCurrent(ctx, source, target) && !(ctx.Conf.SkipCopySameType && source.String == target.String)
+//@   ensures@C05,C12,C03 !old(ctx.HasSeen(source)) && !PtrVariantOfCurrent(ctx, source, target) && !(ctx.Conf.SkipCopySameType && source.String == target.String)
 //@           && ((source.Named && !source.Basic) || (target.Named && !target.Basic)) ==> result
+// C03/C04/C12: with the METHOD's skipCopySameType in force an identical pair is passed through where it stands (no
+// method of its own, which would run with the converter's settings and may have no rule for it)
+//@   ensures@C03,C04,C12 !old(ctx.HasSeen(source)) && ctx.Conf.SkipCopySameType && source.String == target.String ==> !result
 //@   ensures@C13 !old(ctx.HasSeen(source)) ==> g.lookup.ByID(ctx.IndexID).Dirty == old(g.lookup.ByID(ctx.IndexID).Dirty)
 //@   requires@C13 builder.GenInv(g) && builder.MethodOK(ctx) && source != nil && target != nil
 //@   ensures@C13 builder.GenInv(g)
@@ -207,7 +210,7 @@ package generator
 //@ func generator.createSubMethod(g; ctx, sourceID, source, target, errPAth)
 //@   props C06 C03 C12 C04 C01
 //@   propagates
-//@   at@C12 call g.lookup.Register#1 assert same(genMethod.Method.Common, g.conf.Common) && genMethod.Definition.Name == name && genMethod.Definition.Generated
+//@   at@C12,C08,C11 call g.lookup.Register#1 assert same(genMethod.Method.Common, g.conf.Common) && genMethod.Definition.Name == name && genMethod.Definition.Generated
 //@   at@C04 call g.lookup.Register#1 assert genMethod.Method.Common.SkipCopySameType == g.conf.Common.SkipCopySameType
 // C18/C01: a generated helper lives in the OUTPUT package (references to it are qualified with that path, which the
 // output file drops as its own)
@@ -257,6 +260,10 @@ package generator
 // C07: a delegate that can fail needs a method that returns an error
 //@ func generator.delegateMethod(g; ctx, delegateTo, sourceID)
 //@   props C07 C06
+// C14: the arguments of the delegate are passed in the declared order (each one appended after those before it)
+//@   at@C14 call append#1 assert seqEq(arg0, params)
+//@   at@C14 call append#2 assert seqEq(arg0, params)
+//@   at@C14 call append#3 assert seqEq(arg0, params)
 //@   assigns nothing
 //@   ensures delegateTo.ReturnError && !g.lookup.ByID(ctx.IndexID).ReturnError ==> err != nil && result == nil
 //@   ensures err == nil ==> result != nil
@@ -299,7 +306,7 @@ package generator
 //@   requires@C13 builder.GenInv(g) && builder.CallOK(ctx, sourceID, source, target) && builder.AssignOK(assignTo)
 //@   ensures@C13 builder.GenInv(g)
 //@   ensures !old(target.Pointer && target.PointerInner.Struct) ==> err != nil
-//@   ensures !old(source.Struct) && !old(source.Pointer && source.PointerInner.Struct) ==> err != nil
+//@   ensures@C10,C03,C13 !old(source.Struct) && !old(source.Pointer && source.PointerInner.Struct) ==> err != nil
 // the update is generated field by field by the struct rule itself (no rule lookup: an update never degenerates into
 // `target = source`), into the struct the update argument points to
 //@   at@C10 call s.Assign#1 assert arg1 == ctx && arg2 == assignTo && arg3 == sourceID && arg5 == target.PointerInner && (old(source.Struct) ==> arg4 == old(source))
